@@ -17,7 +17,8 @@ import (
 // Tracing hooks for the verification harness in /verif (build tag "verif"):
 // one event per printer-pool operation, emitted after newPrinter's
 // re-initialisation ("get") and before the printer is handed back to the pool
-// ("put") or dropped because its buffer is too large ("drop").
+// ("put") or dropped because its buffer is too large ("drop"); "gc" when a printer object is about to be
+// collected (outside the order of calls).
 
 const verifOn = true
 
@@ -59,7 +60,14 @@ func verifID(p *pp) uint64 {
 	}
 	id := atomic.AddUint64(&verifNextID, 1)
 	verifIDs.Store(key, id)
-	runtime.SetFinalizer(p, func(q *pp) { verifIDs.Delete(uintptr(unsafe.Pointer(q))) })
+	runtime.SetFinalizer(p, func(q *pp) {
+		verifIDs.Delete(uintptr(unsafe.Pointer(q)))
+		// "gc": the object is about to be collected (a printer abandoned by a propagating panic, or one dropped by the
+		// pool) and its memory may be handed to any other object afterwards; not part of the order of calls (Seq 0)
+		if sink := VerifPoolSink; sink != nil {
+			sink(VerifPoolEvent{Ev: "gc", Pid: id})
+		}
+	})
 	return id
 }
 
